@@ -939,6 +939,20 @@ class Collector:
             self.stats["crash_errors"][k] = self.stats["crash_errors"].get(k, 0) + v
 
 
+def guarded(fn, ctx):
+    """run an auxiliary oracle; an exception escaping from the implementation while the oracle sets up or reads a
+    trajectory is itself a finding (valid use raised), never a crash of the check"""
+    import traceback
+    try:
+        return fn(ctx)
+    except Exception as e:  # noqa
+        tb = traceback.extract_tb(e.__traceback__)
+        where = next((f"{os.path.basename(t.filename)}:{t.lineno} {t.line}" for t in reversed(tb) if "c20.py" in t.filename), "?")
+        os.chdir(_WDIR)
+        return [(f"OptimiserHistory|{fn.__name__}:valid-use-raised", fn.__name__,
+                 f"valid use of the trajectory raised {type(e).__name__}: {e}  (at {where})")]
+
+
 def witnesses(ctx):
     """The inputs on which /repo violated the property before commit 24aa35f (late open, load of an
     archive without coordinates, second close), replayed on the real class: none may fail now."""
@@ -1370,14 +1384,19 @@ def run(ctx):
     col = Collector(ctx)
 
     # 2. the inputs of the repaired defects on the real code
-    wit = witnesses(ctx)
+    try:
+        wit = witnesses(ctx)
+    except Exception as e:  # noqa
+        wit = [("OptimiserHistory|witnesses:valid-use-raised", 0, "<reuse>",
+                [("OptimiserHistory|witnesses:valid-use-raised", "witnesses", f"{type(e).__name__}: {e}")])]
     for key, ml, path, fails in wit:
         col.fails(ml, path, fails)
     ctx.log(f"witnesses of former / refuted defects: {sum(1 for w in wit if w[3])} of {len(wit)} fail")
     # 3. reuse by NDOptimiser.from_file / CalculationExecutorO
-    for f in reuse_oracles(ctx) + edge_oracles(ctx) + fidelity_oracles(ctx) + reuse_unclosed_oracles(ctx):
-        col.fails(0, "<reuse>", [f])
-    for f in fault_oracles(ctx):
+    for fn in (reuse_oracles, edge_oracles, fidelity_oracles, reuse_unclosed_oracles):
+        for f in guarded(fn, ctx):
+            col.fails(0, "<reuse>", [f])
+    for f in guarded(fault_oracles, ctx):
         col.fails(0, "<fault>", [f])
 
     # 4. exhaustive enumeration on the implementation (parallel) ...
@@ -1591,7 +1610,8 @@ def replay(ctx, obj):
     rep = obj.get("replay", {})
     path = rep.get("shrunk_ops") or rep.get("ops")
     if rep.get("kind") == "reuse":
-        fl = reuse_oracles(ctx) + edge_oracles(ctx) + fidelity_oracles(ctx) + reuse_unclosed_oracles(ctx) + fault_oracles(ctx)
+        fl = [f for fn in (reuse_oracles, edge_oracles, fidelity_oracles, reuse_unclosed_oracles, fault_oracles)
+              for f in guarded(fn, ctx)]
         for key, name, what in fl:
             print(f"     FAIL {key}: {what}")
         print(f"replay: from_file / executor reuse: {len(fl)} failures; stored: {obj.get('what')}")
